@@ -1,6 +1,6 @@
 // Included once per backend module; `BE`, `BE_NAME`, `IS_FFT64` are defined by the includer.
 #[allow(unused_imports)]
-pub use crate::arena::{ASAN, GUARD, Guarded, poison, unpoison};
+pub use crate::arena::{ASAN, GUARD, GuardRef, Guarded, poison, unpoison};
 #[allow(unused_imports)]
 pub use crate::exact::*;
 #[allow(unused_imports)]
@@ -15,6 +15,15 @@ pub const PREP_BYTES: usize = std::mem::size_of::<<BE as Backend>::ScalarPrep>()
 
 pub fn new_module(n: usize) -> Module<BE> {
     Module::<BE>::new(n as u64)
+}
+
+thread_local! {
+    static MODULES: std::cell::RefCell<std::collections::HashMap<usize, &'static Module<BE>>> = std::cell::RefCell::new(std::collections::HashMap::new());
+}
+
+/// one module per ring degree, created once per thread and never dropped (table generation is expensive under Miri / valgrind)
+pub fn cached_module(n: usize) -> &'static Module<BE> {
+    MODULES.with(|m| *m.borrow_mut().entry(n).or_insert_with(|| Box::leak(Box::new(new_module(n)))))
 }
 
 /// Small-coefficient vector (i64 limbs) inside a guarded allocation, with spare capacity.
